@@ -342,6 +342,20 @@ fn mismatch<const WHICH: u8, const SAME_ROLE: bool>() {
     canaries();
 }
 proof!(6, fn c13_q_mismatch_buffer_same_role() { mismatch::<0, true>(); });
+
+/// the same case without the final teardown (a third less to solve): the refusal itself, with the
+/// right error, and nothing destroyed
+proof!(6, fn c13_q_second_sender_mismatch_refused() {
+    let sender = builder(BASE).create_sender().unwrap();
+    let mut p = BASE;
+    p.buffer = 2;
+    let r = builder(p).create_sender();
+    assert!(r.err() == Some(ZeroCopyCreationError::AnotherInstanceIsAlreadyConnected),
+        "c13: second (mismatching) attach of an attached role not refused as already connected");
+    assert!(destroyed() == 0 && owned() == 0 && exists(), "c13: refused mismatching attach destroyed the resource");
+    core::mem::forget(sender);
+    canaries();
+});
 proof!(6, fn c13_q_mismatch_borrow_other_role() { mismatch::<1, false>(); });
 proof!(6, fn c13_q_mismatch_channels_other_role() { mismatch::<5, false>(); });
 proof!(6, fn c13_t_mismatch_buffer_other_role() { mismatch::<0, false>(); });
